@@ -223,7 +223,7 @@ func (c18) Run(e *Env) {
 		}
 	}
 
-	nSteps := e.Range(3, 30)
+	nSteps := e.Range(3, 30*e.Depth())
 	for step := 0; step < nSteps; step++ {
 		e.Settle()
 		check()
